@@ -250,3 +250,149 @@ Proof.
   intros HG. unfold sec_bis_at.
   destruct (force w s) as [w1 idx] eqn:EF. simpl. eapply force_good; eauto.
 Qed.
+
+(* ================= section extent ================= *)
+
+Definition sec_ivs (w : world) (s : id) : list iv :=
+  flat_map (fun b => match addr_iv w b with Some i => [i] | None => [] end) (kids w s).
+
+Definition all_addr (w : world) (s : id) : bool :=
+  forallb (fun bi => match naddr (getn w bi) with Some _ => true | None => false end) (kids w s).
+
+(* Section.address / Section.size as a pure function of the members: None if there is no member or
+   some member has no address, else (min address, max (address + size) - min address);
+   tree_begin / tree_end are fold_left Z.min / Z.max over the members' [a, a+size+1) intervals *)
+Definition ext_pure (w : world) (s : id) : option (Z * Z) :=
+  match kids w s with
+  | [] => None
+  | _ :: _ => if all_addr w s
+              then Some (tree_begin (sec_ivs w s),
+                         tree_end (sec_ivs w s) - tree_begin (sec_ivs w s) - 1)
+              else None
+  end.
+
+Lemma forallb_false_ex {A} (f : A -> bool) l : forallb f l = false -> exists x, In x l /\ f x = false.
+Proof.
+  induction l as [|x l IH]; simpl; [discriminate|].
+  destruct (f x) eqn:E; simpl.
+  - intros H. destruct (IH H) as [y [Hy Hf]]. exists y. auto.
+  - intros _. exists x. auto.
+Qed.
+
+Lemma all_addr_true w s : all_addr w s = true <->
+  forall bi, In bi (kids w s) -> naddr (getn w bi) <> None.
+Proof.
+  unfold all_addr. rewrite forallb_forall. split.
+  - intros H bi Hb. specialize (H bi Hb). destruct (naddr (getn w bi)); congruence.
+  - intros H bi Hb. specialize (H bi Hb). destruct (naddr (getn w bi)); congruence.
+Qed.
+
+Lemma addr_iv_not_None w b : addr_iv w b <> None <-> naddr (getn w b) <> None.
+Proof. unfold addr_iv. destruct (naddr (getn w b)); split; congruence. Qed.
+
+Lemma In_sec_ivs w s i : In i (sec_ivs w s) <->
+  exists bi a, In bi (kids w s) /\ naddr (getn w bi) = Some a /\
+               i = {| ib := a; ie := a + nsize (getn w bi) + 1; idata := bi |}.
+Proof.
+  unfold sec_ivs. rewrite In_flat_map_opt. split.
+  - intros [b [Hb Hk]]. apply addr_iv_Some in Hk. destruct Hk as [a [Ha Hi]]. exists b, a. auto.
+  - intros (b & a & Hb & Ha & Hi). exists b. split; auto. apply addr_iv_Some. exists a. auto.
+Qed.
+
+Theorem sec_extent_exact w known s : Forest w known -> SyncAll w -> kindof w s = KSec ->
+  snd (sec_extent w s) = ext_pure w s.
+Proof.
+  intros HF HS HK. unfold sec_extent.
+  destruct (force w s) as [w1 idx] eqn:EF. simpl.
+  destruct (force_spec w s w1 idx HS EF) as (_ & _ & Hag & _).
+  destruct (force_sec_index w s w1 idx HS HK EF) as [Hnd Hidx].
+  rewrite (agree_kids _ _ s Hag).
+  pose proof (idx_length (addr_iv w) (kids w s) idx Hnd Hidx (addr_iv_idata w)
+                (f_nodup w known HF s)) as Hlen.
+  fold (sec_ivs w s) in Hlen.
+  assert (Heq : forall i, In i idx <-> In i (sec_ivs w s)).
+  { intros i. rewrite Hidx. symmetry. apply In_flat_map_opt. }
+  destruct (flat_map_opt_length (addr_iv w) (kids w s)) as [Hle Hiff].
+  fold (sec_ivs w s) in Hle, Hiff.
+  assert (Hall : all_addr w s = true <-> length (sec_ivs w s) = length (kids w s)).
+  { rewrite Hiff, all_addr_true. split; intros H b Hb; apply addr_iv_not_None; auto. }
+  unfold ext_pure.
+  destruct (kids w s) as [|k ks] eqn:Ek.
+  - assert (E0 : length idx = 0%nat).
+    { rewrite Hlen. unfold sec_ivs. rewrite Ek. reflexivity. }
+    rewrite E0. reflexivity.
+  - destruct (all_addr w s) eqn:Ea.
+    + assert (Hl : length idx = length (k :: ks)) by (rewrite Hlen; apply Hall; reflexivity).
+      assert (Hne : idx <> []) by (intros ->; simpl in Hl; discriminate).
+      rewrite Hl, Nat.eqb_refl. simpl.
+      rewrite (tree_begin_equiv idx (sec_ivs w s) Heq Hne),
+              (tree_end_equiv idx (sec_ivs w s) Heq Hne). reflexivity.
+    + destruct (Nat.eqb_spec (length idx) (length (k :: ks))) as [E|E].
+      * rewrite Hlen in E. apply Hall in E. discriminate.
+      * rewrite andb_false_r. reflexivity.
+Qed.
+
+Lemma sec_extent_world known w s : Good known w ->
+  Good known (fst (sec_extent w s)) /\ agree w (fst (sec_extent w s)).
+Proof.
+  intros HG. unfold sec_extent.
+  destruct (force w s) as [w1 idx] eqn:EF. simpl. eapply force_good; eauto.
+Qed.
+
+(* the pure extent, relationally *)
+Theorem ext_pure_Some w s lo sz : ext_pure w s = Some (lo, sz) ->
+  kids w s <> [] /\ (forall bi, In bi (kids w s) -> naddr (getn w bi) <> None) /\
+  (exists bi, In bi (kids w s) /\ naddr (getn w bi) = Some lo) /\
+  (forall bi a, In bi (kids w s) -> naddr (getn w bi) = Some a -> lo <= a) /\
+  (exists bi a, In bi (kids w s) /\ naddr (getn w bi) = Some a /\
+                a + nsize (getn w bi) = lo + sz) /\
+  (forall bi a, In bi (kids w s) -> naddr (getn w bi) = Some a ->
+                a + nsize (getn w bi) <= lo + sz).
+Proof.
+  unfold ext_pure. destruct (kids w s) as [|k ks] eqn:Ek; [discriminate|].
+  destruct (all_addr w s) eqn:Ea; [|discriminate].
+  intros H. inversion H as [[Hlo Hsz]]. clear H.
+  pose proof (proj1 (all_addr_true w s) Ea) as Ea'; clear Ea; rename Ea' into Ea.
+  assert (Hne : sec_ivs w s <> []).
+  { destruct (naddr (getn w k)) as [a|] eqn:Eka.
+    - intros E. assert (Hi : In {| ib := a; ie := a + nsize (getn w k) + 1; idata := k |} (sec_ivs w s)).
+      { apply In_sec_ivs. exists k, a. rewrite Ek. simpl. auto. }
+      rewrite E in Hi. destruct Hi.
+    - exfalso. apply (Ea k); [rewrite Ek; simpl; auto|exact Eka]. }
+  destruct (tree_begin_spec _ Hne) as [[i [Hi Ei]] Lb].
+  destruct (tree_end_spec _ Hne) as [[j [Hj Ej]] Le].
+  rewrite <- Ek. split; [rewrite Ek; discriminate|]. split; [exact Ea|].
+  split; [|split; [|split]].
+  - apply In_sec_ivs in Hi. destruct Hi as (bi & a & Hb & Ha & ->). simpl in Ei.
+    exists bi. split; auto. rewrite Ha, Ei. reflexivity.
+  - intros bi a Hb Ha.
+    assert (Hin : In {| ib := a; ie := a + nsize (getn w bi) + 1; idata := bi |} (sec_ivs w s))
+      by (apply In_sec_ivs; exists bi, a; auto).
+    apply Lb in Hin. simpl in Hin. exact Hin.
+  - apply In_sec_ivs in Hj. destruct Hj as (bi & a & Hb & Ha & ->). simpl in Ej.
+    exists bi, a. split; auto. split; auto. lia.
+  - intros bi a Hb Ha.
+    assert (Hin : In {| ib := a; ie := a + nsize (getn w bi) + 1; idata := bi |} (sec_ivs w s))
+      by (apply In_sec_ivs; exists bi, a; auto).
+    apply Le in Hin. simpl in Hin. lia.
+Qed.
+
+Theorem ext_pure_None w s : ext_pure w s = None <->
+  kids w s = [] \/ exists bi, In bi (kids w s) /\ naddr (getn w bi) = None.
+Proof.
+  unfold ext_pure. destruct (all_addr w s) eqn:Ea.
+  - pose proof (proj1 (all_addr_true w s) Ea) as Ea'; clear Ea; rename Ea' into Ea. destruct (kids w s) as [|k ks] eqn:Ek.
+    + split; auto.
+    + split; [discriminate|]. intros [H|[bi [Hb Hn]]]; [discriminate|].
+      exfalso. apply (Ea bi Hb Hn).
+  - unfold all_addr in Ea. apply forallb_false_ex in Ea. destruct Ea as [bi [Hb Hn]].
+    destruct (kids w s) as [|k ks] eqn:Ek; [destruct Hb|].
+    split; auto. intros _. right. exists bi. split; auto.
+    destruct (naddr (getn w bi)); [discriminate|reflexivity].
+Qed.
+
+Lemma agree_ext_pure w w' s : agree w w' -> ext_pure w' s = ext_pure w s.
+Proof.
+  intros (Hn & Hk & _). unfold ext_pure, all_addr, sec_ivs, addr_iv, getn.
+  rewrite Hn, Hk. reflexivity.
+Qed.
